@@ -21,6 +21,8 @@ def _norm_value(L, v, depth=0):
         try:
             with quiet_faults():
                 return [type(v).__name__, v.get_sql(L.context.DEFAULT_SQL_CONTEXT)]
+        except InjectedError:
+            raise  # an injected asynchronous exception is never data: it fails the op it was injected into
         except Exception as e:  # noqa: BLE001
             return [type(v).__name__, "EXC:" + type(e).__name__]
     if v is None or isinstance(v, _PLAIN):
